@@ -21,5 +21,6 @@ var verifEntries = map[string]func(int){
 	"Verif_C04_VDefrag":    Verif_C04_VDefrag,
 	"Verif_C15_VDefrag":    Verif_C15_VDefrag,
 	"Verif_C11_OverBudget": Verif_C11_OverBudget,
+	"Verif_C15_VReuse":     Verif_C15_VReuse,
 	"Verif_C19_Fallback":   Verif_C19_Fallback,
 }
